@@ -120,6 +120,7 @@ var propImports = map[string][]imp{
 		{"C03.11/E3", "C11", "request state is accessed under the socket lock", []string{"C11.1/E3|protocol/req", "C11.1/E3|protocol/xreq"}},
 	},
 	"C04": {
+		{"C04.26/failure-detaches", "C16", "a request is re-sent (or cancelled) as soon as the connection that carried it closes: every failed write or read on a pipe closes that pipe, which is what tells the protocol", []string{"C16.4/error-closes-only-that-pipe"}},
 		{"C04.25/rearm-stops-previous", "C10", "a request is re-sent each time the retry interval elapses, never sooner: the retry timer armed by a transmission is stopped before the next transmission arms its own, so a re-send caused by the loss of the connection is not followed by the previous timer's re-send", []string{"C10.25/rearm-stops-previous|protocol/req"}},
 		{"C04.22/transport-leaves-message-intact", "C17", "sending does not rewrite the message: the request kept for retransmission goes out byte-identical the second time", []string{"C17.4/no-write-through"}},
 		{"C04.21/retry-inherited", "C19", "a context opened on the socket retries at the interval configured on the socket, including 0 = never (the interval is what decides whether an unanswered request is sent again)", []string{"C19.4/inheritance|protocol/req"}},
@@ -180,6 +181,7 @@ var propImports = map[string][]imp{
 		{"C09.9/star-forward", "C08", "a STAR node forwards a private copy with the hop header intact whatever the local application does with its own copy", []string{"C08.4/star-forward"}},
 	},
 	"C10": {
+		{"C10.26/attach", "C13", "no pipe and no pipe id remains after Close: a pipe is in the socket's list before anything (a hook, the protocol) can close it, so that Close removes it and a refused pipe is not listed after it has released its id", []string{"C13.1/addPipe"}},
 		{"C10.24/accept-loop", "C16", "a connection is known to the handshaker from the moment it is accepted: the accept loop itself performs no handshake step, so a peer stalled in one is reached by Close", []string{"C16.8/accept-loop"}},
 		{"C10.23/closer-leak", "C12", "no connection remains after Close: every connection a transport obtains is closed or handed to a pipe on every path, so that something the socket closes owns it (a connection dropped on a refusing path outlives the socket)", []string{"C12.16/closer-leak"}},
 		{"C10.22/dialer-list", "C13", "Close closes the dialers in the socket's list: the list holds exactly the dialers created on the socket, and nothing but their creation writes it (a dialer dropped from the list keeps dialling after Close)", []string{"C13.14/core-state-writers|writers-of-dialers", "C13.14/core-state-writers|writers-of-listeners"}},
@@ -228,6 +230,8 @@ var propImports = map[string][]imp{
 		{"C14.7/registration", "C10", "a dialer is registered with its socket, or refused, atomically with the socket's closed state: a dialer added to a closed socket keeps dialling for ever", []string{"C10.3/socket-close|NewDialer", "C10.10/E3b|internal/core.(*socket).NewDialer", "C10.10/E3b|internal/core.(*dialer)"}},
 	},
 	"C16": {
+		{"C16.29/id-table-writers", "C03", "a reply is matched against requests that have been transmitted: an id enters the table where its request goes out, so a peer that guesses the id of a request still queued cannot complete it", []string{"C03.2/id-table-writers"}},
+		{"C16.28/redial-decision", "C14", "one peer that answers with the wrong protocol does not stop the dialer: the decision to schedule another attempt depends on nothing but (asked to redial, closed, outcome is not ErrClosed)", []string{"C14.2/backoff"}},
 		{"C16.26/channels-not-shared", "C10", "what is queued for one peer is never delivered to another: per-connection queues and close channels belong to one connection", []string{"C10.21/channels-not-shared|protocol/"}},
 		{"C16.24/limit-settable-on-live-listener", "C19", "the receive limit can be lowered on a listener that is already bound: option setters answer with nil, bad-value or bad-option only, never 'wrong state'", []string{"C19.1/option-shape|transport/"}},
 		{"C16.22/attach", "C13", "a connection that dies right behind a valid handshake is taken off the protocol again: attach and the added flag change under the pipe lock, so the close that follows sees them", []string{"C13.1/addPipe"}},
@@ -248,6 +252,7 @@ var propImports = map[string][]imp{
 		{"C17.8/api-copies", "C01", "Recv hands out a copy of the body whatever its size; the message goes back to the pool", []string{"C01.8/api-copies"}},
 	},
 	"C18": {
+		{"C18.18/waiters-reread", "C19", "a Recv that is woken because its queue was replaced waits on the new queue: otherwise it times out with messages waiting, or never returns", []string{"C19.24/waiters-reread"}},
 		{"C18.17/rearm-stops-previous", "C10", "a deadline fires once, for the call it was armed for: a timer field is re-armed only after the timer it may still hold was stopped", []string{"C10.25/rearm-stops-previous"}},
 		{"C18.16/macat-durations", "C20", "macat hands the socket the deadline it was given: bare numbers are whole seconds (a fraction is refused rather than truncated), and a deadline that was not given is never applied", []string{"C20.4/duration", "C20.18/unset-deadline-never-applied"}},
 		{"C18.15/queue-room", "C19", "a Recv never hangs beyond its deadline on the socket lock: a receiver goroutine that re-sends into a context's queue while holding the lock needs room in it, so a queue length of 0 is refused", []string{"C19.2/E10c"}},
